@@ -173,7 +173,7 @@ int _GD_MogrifyFile(DIRFILE* D, gd_entry_t* E, unsigned long encoding,
   /* Adjust for the change in offset */
   if (offset < 0) { /* new offset is less, pad new file */
     if ((*enc_in->seek)(E->e->u.raw.file, 0, E->EN(raw,data_type),
-          GD_FILE_WRITE) == -1)
+          GD_FILE_READ) == -1)
     {
       _GD_SetEncIOError(D, GD_E_IO_WRITE, E->e->u.raw.file + 0);
     } else
